@@ -417,7 +417,7 @@ pub fn c11(cfg: C11Cfg, bound: u32) -> ThHarness {
                 simk::with(|k| k.sqpoll_manual = true);
                 actors.push(Actor {
                     name: "sq-thread".into(),
-                    enabled: Box::new(|| simk::with(|k| !k.rings.is_empty() && !k.rings[0].closed && k.rings[0].sq_pending() > 0 && !k.rings[0].sq_thread_idle)),
+                    enabled: Box::new(|| simk::with(|k| k.ring0_open() && k.rings[0].sq_pending() > 0 && !k.rings[0].sq_thread_idle)),
                     step: Box::new(|| {
                         simk::with(|k| {
                             k.consume(0, 1);
@@ -426,7 +426,7 @@ pub fn c11(cfg: C11Cfg, bound: u32) -> ThHarness {
                 });
                 actors.push(Actor {
                     name: "sq-thread-goes-idle".into(),
-                    enabled: Box::new(|| simk::with(|k| !k.rings.is_empty() && !k.rings[0].closed && k.rings[0].sq_pending() == 0 && !k.rings[0].sq_thread_idle && k.idle_budget > 0)),
+                    enabled: Box::new(|| simk::with(|k| k.ring0_open() && k.rings[0].sq_pending() == 0 && !k.rings[0].sq_thread_idle && k.idle_budget > 0)),
                     step: Box::new(|| {
                         simk::with(|k| {
                             k.idle_budget -= 1;
@@ -689,7 +689,7 @@ pub fn c03_threads(cfg: C03Cfg, bound: u32) -> ThHarness {
                 simk::with(|k| k.sqpoll_manual = true);
                 actors.push(Actor {
                     name: "sq-thread".into(),
-                    enabled: Box::new(|| simk::with(|k| !k.rings.is_empty() && !k.rings[0].closed && k.rings[0].sq_pending() > 0 && !k.rings[0].sq_thread_idle)),
+                    enabled: Box::new(|| simk::with(|k| k.ring0_open() && k.rings[0].sq_pending() > 0 && !k.rings[0].sq_thread_idle)),
                     step: Box::new(|| {
                         simk::with(|k| {
                             k.consume(0, 1);
@@ -1540,6 +1540,331 @@ pub fn thops(cfg: ThOpsCfg, bound: u32) -> ThHarness {
                         }
                     }
                     v.push(Violation::new("C06", "leak/threads", &format!("{} block(s), {total} bytes still allocated after everything was dropped", rep.leaked.len())));
+                }
+                v
+            });
+            ThSetup { bodies, actors, judge }
+        }),
+    }
+}
+
+// --------------------------------------------------------------------- C12 (threads)
+
+/// What a thread other than the one dropping the Ring does, concurrently with that drop.
+#[derive(Clone, Copy, Debug, PartialEq, Eq)]
+pub enum C12Act {
+    /// Drop the regular AsyncFd.
+    DropFd,
+    /// Drop a direct AsyncFd (obtained from an open before the threads start).
+    DropDirectFd,
+    /// Drop a ReadBuf that owns a pool buffer.
+    ReleaseBuf,
+    /// Drop a ReadBuf that has no buffer assigned yet, then the pool handle.
+    DropFreshBufAndPool,
+    /// Call SubmissionQueue::wake, then drop the handle.
+    Wake,
+    /// Drop a clone of the SubmissionQueue.
+    DropSqClone,
+    /// Poll a fresh operation for the first time, then drop it.
+    FirstPoll(Kind),
+    /// Drop an operation that is in flight.
+    DropInflight(Kind),
+    /// Drop an operation whose submission is queued but not yet submitted.
+    DropQueued(Kind),
+}
+
+pub struct C12ThCfg {
+    pub acts: Vec<C12Act>,
+    /// Ring::poll(Some(0)) calls the ring thread makes before it drops the Ring.
+    pub ring_polls: usize,
+    pub sq: u32,
+    pub sqpoll: bool,
+    /// Reports under this property (C12, or C11 for the wake variants).
+    pub prop: &'static str,
+}
+
+pub fn c12_threads(cfg: C12ThCfg, bound: u32) -> ThHarness {
+    let name = format!("threads-ringdrop-vs-{}-sq{}{}-polls{}", cfg.acts.iter().map(|a| format!("{a:?}")).collect::<Vec<_>>().join("+"), cfg.sq, if cfg.sqpoll { "-sqpoll" } else { "" }, cfg.ring_polls);
+    let describe = json!({"engine": "schx", "ring_thread": format!("{} poll(s), then drops the Ring", cfg.ring_polls), "other_threads": cfg.acts.iter().map(|a| format!("{a:?}")).collect::<Vec<_>>(), "sq": cfg.sq, "kernel_thread": cfg.sqpoll, "preemption_bound": bound});
+    let cfg = Arc::new(cfg);
+    ThHarness {
+        name,
+        bound,
+        free_bound: 0,
+        cap_s: 0,
+        describe,
+        mk: Box::new(move || {
+            let cfg = cfg.clone();
+            let prop = cfg.prop;
+            simk::reset(simk::SetupPlan::default());
+            simk::with(|k| {
+                k.zc_cancel_notif_immediate = true;
+                k.sync_cancel = simk::SyncCancelMode::All;
+            });
+            talloc::set_on_free(Some(simk::on_free));
+            let need_table = cfg.acts.iter().any(|a| matches!(a, C12Act::DropDirectFd));
+            let need_pool = cfg.acts.iter().any(|a| matches!(a, C12Act::ReleaseBuf | C12Act::DropFreshBufAndPool) || matches!(a, C12Act::FirstPoll(k) | C12Act::DropInflight(k) | C12Act::DropQueued(k) if k.needs_pool()));
+            let (mut ring, sq, fd_box, mut pool) = talloc::track(|| {
+                let mut c = Ring::config().with_submission_queue_size(cfg.sq);
+                if need_table {
+                    c = c.with_direct_descriptors(4);
+                }
+                if cfg.sqpoll {
+                    c = c.with_kernel_thread();
+                }
+                let ring = c.build().expect("ring");
+                let sq = ring.sq();
+                let raw = simk::with(|k| k.new_regular_pub());
+                let fd_box = Box::new(unsafe { AsyncFd::from_raw_fd(raw, sq.clone()) });
+                let pool = if need_pool { Some(a10::io::ReadBufPool::new(sq.clone(), 2, 8).expect("pool")) } else { None };
+                (ring, sq, fd_box, pool)
+            });
+            // Operations borrow a descriptor of their own (safe Rust would not let `fd_box` go before them).
+            let fd2_box = talloc::track(|| {
+                let raw = simk::with(|k| k.new_regular_pub());
+                Box::new(unsafe { AsyncFd::from_raw_fd(raw, sq.clone()) })
+            });
+            let fd: &'static AsyncFd = unsafe { &*std::ptr::from_ref::<AsyncFd>(fd2_box.as_ref()) };
+            let enter = |ring: &mut Ring| {
+                talloc::track(|| {
+                    let _ = ring.poll(Some(Duration::ZERO));
+                });
+            };
+            // Prepare what each thread will act on.
+            enum Prepared {
+                Fd(Box<AsyncFd>),
+                Direct(AsyncFd),
+                Buf(a10::io::ReadBuf),
+                FreshAndPool(a10::io::ReadBuf, a10::io::ReadBufPool),
+                Sq(SubmissionQueue, bool),
+                Op(Op, bool),
+            }
+            let mut prepared: Vec<Sendable<Prepared>> = Vec::new();
+            let mut fd_box = Some(fd_box);
+            let mut direct_origin = None;
+            let mut polled_ops = false;
+            for (n, act) in cfg.acts.iter().enumerate() {
+                let p = match act {
+                    C12Act::DropFd => Prepared::Fd(fd_box.take().expect("one DropFd at most")),
+                    C12Act::DropDirectFd => {
+                        let env = ops::Env { sq: &sq, fd, pool: None, nth: 90 };
+                        let mut op = ops::make(Kind::OpenDirect, &env);
+                        let w = HWaker::new(90);
+                        let mut cx = Context::from_waker(&w.waker);
+                        assert_eq!(op.poll(&mut cx), Seen::Pending);
+                        enter(&mut ring);
+                        let s = simk::with(|k| *k.inflight().last().unwrap());
+                        simk::with(|k| k.complete(s, Out::Default));
+                        enter(&mut ring);
+                        assert!(matches!(op.poll(&mut cx), Seen::Ready(_)));
+                        let d = op.held.borrow_mut().pop().unwrap();
+                        direct_origin = Some(s);
+                        talloc::track(|| drop(op));
+                        Prepared::Direct(d)
+                    }
+                    C12Act::ReleaseBuf => {
+                        let env = ops::Env { sq: &sq, fd, pool: pool.as_ref(), nth: 91 };
+                        let mut op = ops::make(Kind::ReadPool, &env);
+                        let w = HWaker::new(91);
+                        let mut cx = Context::from_waker(&w.waker);
+                        assert_eq!(op.poll(&mut cx), Seen::Pending);
+                        enter(&mut ring);
+                        let s = simk::with(|k| *k.inflight().last().unwrap());
+                        simk::with(|k| k.complete(s, Out::Res(3)));
+                        enter(&mut ring);
+                        assert!(matches!(op.poll(&mut cx), Seen::Ready(_)));
+                        let b = op.bufs.borrow_mut().pop().unwrap();
+                        talloc::track(|| drop(op));
+                        Prepared::Buf(b)
+                    }
+                    C12Act::DropFreshBufAndPool => {
+                        let p = pool.as_ref().unwrap().clone();
+                        let b = talloc::track(|| p.get());
+                        Prepared::FreshAndPool(b, p)
+                    }
+                    C12Act::Wake => Prepared::Sq(sq.clone(), true),
+                    C12Act::DropSqClone => Prepared::Sq(sq.clone(), false),
+                    C12Act::FirstPoll(kind) | C12Act::DropInflight(kind) | C12Act::DropQueued(kind) => {
+                        let env = ops::Env { sq: &sq, fd, pool: pool.as_ref(), nth: n };
+                        let mut op = ops::make(*kind, &env);
+                        if !matches!(act, C12Act::FirstPoll(_)) {
+                            let w = HWaker::new(10 + n as u32);
+                            let mut cx = Context::from_waker(&w.waker);
+                            assert_eq!(op.poll(&mut cx), Seen::Pending);
+                            if matches!(act, C12Act::DropInflight(_)) {
+                                enter(&mut ring);
+                            }
+                        } else {
+                            polled_ops = true;
+                        }
+                        Prepared::Op(op, matches!(act, C12Act::FirstPoll(_)))
+                    }
+                };
+                prepared.push(Sendable(p));
+            }
+            // The harness' own pool handle goes away before the threads start unless nothing else holds the pool.
+            let pool_keep = pool.take();
+            let mut fd_box = fd_box;
+            let ring_slot: Arc<Mutex<Option<Sendable<(Ring, SubmissionQueue)>>>> = Arc::new(Mutex::new(Some(Sendable((ring, sq)))));
+            let events: Arc<Mutex<Vec<(String, u64)>>> = Arc::new(Mutex::new(Vec::new()));
+            let mut bodies: Vec<(String, Body)> = Vec::new();
+            // What is left when every thread has acted is dropped by the ring thread (inside the schedule:
+            // with a kernel thread the last handle waits for the sq-thread, which only runs as an actor).
+            let leftovers = Arc::new(Mutex::new(Some(Sendable((fd_box.take(), fd2_box, pool_keep)))));
+            let others_done = Arc::new(std::sync::atomic::AtomicUsize::new(0));
+            let n_others = cfg.acts.len();
+            {
+                let ring_slot = ring_slot.clone();
+                let events = events.clone();
+                let polls = cfg.ring_polls;
+                let leftovers = leftovers.clone();
+                let others_done = others_done.clone();
+                bodies.push((
+                    "ring".into(),
+                    Box::new(move || {
+                        let Sendable((mut ring, sq)) = ring_slot.lock().unwrap().take().unwrap();
+                        for _ in 0..polls {
+                            talloc::track(|| {
+                                let _ = ring.poll(Some(Duration::ZERO));
+                            });
+                        }
+                        events.lock().unwrap().push(("ring-drop-begin".into(), crate::waker::tick()));
+                        talloc::track(|| {
+                            drop(sq);
+                            drop(ring);
+                        });
+                        events.lock().unwrap().push(("ring-dropped".into(), crate::waker::tick()));
+                        let od = others_done.clone();
+                        schx::block_until(Box::new(move || od.load(std::sync::atomic::Ordering::SeqCst) == n_others), false, "waiting for the other threads to finish");
+                        if let Some(l) = leftovers.lock().unwrap().take() {
+                            talloc::track(|| {
+                                let Sendable((a, b, c)) = l;
+                                drop(c);
+                                drop(a);
+                                drop(b);
+                            });
+                        }
+                    }),
+                ));
+            }
+            for (n, p) in prepared.into_iter().enumerate() {
+                let events = events.clone();
+                let others_done = others_done.clone();
+                bodies.push((
+                    format!("other{n}"),
+                    Box::new(move || {
+                        let p = p;
+                        events.lock().unwrap().push((format!("act{n}-begin"), crate::waker::tick()));
+                        match p.0 {
+                            Prepared::Fd(x) => talloc::track(|| drop(x)),
+                            Prepared::Direct(x) => talloc::track(|| drop(x)),
+                            Prepared::Buf(x) => talloc::track(|| drop(x)),
+                            Prepared::FreshAndPool(b, p) => talloc::track(|| {
+                                drop(b);
+                                drop(p);
+                            }),
+                            Prepared::Sq(s, wake) => talloc::track(|| {
+                                if wake {
+                                    s.wake();
+                                }
+                                drop(s);
+                            }),
+                            Prepared::Op(mut op, first) => {
+                                if first {
+                                    let w = HWaker::new(20 + n as u32);
+                                    let mut cx = Context::from_waker(&w.waker);
+                                    let _ = op.poll(&mut cx);
+                                }
+                                talloc::track(|| {
+                                    op.held.borrow_mut().clear();
+                                    op.bufs.borrow_mut().clear();
+                                    drop(op)
+                                });
+                            }
+                        }
+                        events.lock().unwrap().push((format!("act{n}-end"), crate::waker::tick()));
+                        others_done.fetch_add(1, std::sync::atomic::Ordering::SeqCst);
+                    }),
+                ));
+            }
+            let mut actors = Vec::new();
+            if cfg.sqpoll {
+                simk::with(|k| k.sqpoll_manual = true);
+                actors.push(Actor {
+                    name: "sq-thread".into(),
+                    enabled: Box::new(|| simk::with(|k| k.ring0_open() && k.rings[0].sq_pending() > 0 && !k.rings[0].sq_thread_idle)),
+                    step: Box::new(|| {
+                        simk::with(|k| {
+                            k.consume(0, 1);
+                        })
+                    }),
+                });
+            }
+            let judge = Box::new(move |_exec: &Exec| -> Vec<Violation> {
+                let mut v = sim_violations(prop);
+                if !v.is_empty() || leftovers.lock().unwrap().is_some() {
+                    std::mem::forget(leftovers.lock().unwrap().take());
+                    if v.is_empty() {
+                        v.push(Violation::new(prop, "stuck/threads", "the threads did not run to the end"));
+                    }
+                    simk::shutdown();
+                    talloc::disarm();
+                    return v;
+                }
+                // Mapping balance: the three ring mappings unmapped exactly once, the ring descriptor closed after them.
+                let ev = crate::mapwatch::events();
+                let mmaps = ev.iter().filter(|e| matches!(e, crate::mapwatch::MapEvent::Mmap { failed: false, .. })).count();
+                let unmaps: Vec<&crate::mapwatch::MapEvent> = ev.iter().filter(|e| matches!(e, crate::mapwatch::MapEvent::Munmap { .. })).collect();
+                let left = crate::mapwatch::mappings();
+                if !left.is_empty() {
+                    v.push(Violation::new("C12", "mapping-leaked/threads", &format!("{} ring mapping(s) still mapped after every handle was dropped: {left:?}", left.len())));
+                }
+                if unmaps.len() > mmaps {
+                    v.push(Violation::new("C12", "unmapped-twice/threads", &format!("{} munmap calls for {mmaps} mappings", unmaps.len())));
+                }
+                for u in &unmaps {
+                    if let crate::mapwatch::MapEvent::Munmap { exact: false, addr, len, .. } = u {
+                        v.push(Violation::new("C12", "unmap-wrong-range/threads", &format!("munmap({addr:#x}, {len}) does not match the mapping it hits")));
+                    }
+                }
+                let close_pos = ev.iter().position(|e| matches!(e, crate::mapwatch::MapEvent::CloseRing { .. }));
+                let last_unmap = ev.iter().rposition(|e| matches!(e, crate::mapwatch::MapEvent::Munmap { .. }));
+                match (close_pos, last_unmap) {
+                    (None, _) => v.push(Violation::new("C12", "ring-fd-leaked/threads", "the ring descriptor was never closed although every handle is gone")),
+                    (Some(c), Some(u)) if c < u => v.push(Violation::new("C12", "ring-fd-closed-early/threads", "the ring descriptor was closed before its mappings were unmapped")),
+                    _ => {}
+                }
+                // Descriptors: each closed exactly once.
+                let descs = simk::with(|k| {
+                    k.sync_closes();
+                    k.descs.clone()
+                });
+                for d in &descs {
+                    if d.open {
+                        if d.origin != 0 && Some(d.origin) != direct_origin {
+                            continue; // Delivered to a dropped operation: the known finding of C07, judged there.
+                        }
+                        let what = match d.kind {
+                            simk::DescKind::Regular(_) => "regular",
+                            simk::DescKind::Fixed { .. } => "direct",
+                        };
+                        v.push(Violation::new("C12", &format!("unclosed/{what}/threads"), &format!("descriptor {:?} was never closed although its AsyncFd, the Ring and every other handle were dropped (AsyncFd dropped on one thread while the Ring was dropped on another); events {:?}", d.kind, events.lock().unwrap())));
+                    }
+                    if d.closes.len() > 1 {
+                        v.push(Violation::new("C12", "closed-twice/threads", &format!("descriptor {:?} closed {} times ({:?})", d.kind, d.closes.len(), d.closes)));
+                    }
+                }
+                // Registrations: no buffer ring left registered with a ring whose handles are all gone is
+                // implied by the ring descriptor being closed.
+                simk::shutdown();
+                let rep = talloc::disarm();
+                if rep.double_frees > 0 {
+                    v.push(Violation::new(prop, "double-free/threads", &format!("{} double free(s)", rep.double_frees)));
+                }
+                // A first poll that submits after the Ring is gone leaves state a10 cannot reclaim (no leak demand then).
+                if !rep.leaked.is_empty() && !polled_ops && v.is_empty() {
+                    let total: usize = rep.leaked.iter().map(|b| b.size).sum();
+                    v.push(Violation::new("C12", "leak/threads-ring-dropped-concurrently", &format!("{} block(s), {total} bytes still allocated after the Ring (dropped on its own thread) and every other object were dropped; events {:?}", rep.leaked.len(), events.lock().unwrap())));
                 }
                 v
             });
